@@ -12,8 +12,10 @@ from spec import model, designs, runner
 ALL_STRATS = ("IterateSATGen", "RandomGen")
 
 
-def design_space(tier, seed, tags=None, exclude=(), random_n=None):
+def design_space(tier, seed, tags=None, exclude=(), random_n=None, continuous=False):
     ds = designs.curated()
+    if not continuous:
+        ds = [d for d in ds if "continuous" not in d["tags"]]      # designs with continuous factors: only for the checks that ask for them (C08, C20)
     n = random_n if random_n is not None else (40 if tier == "quick" else 400)
     ds += designs.random_designs(seed, n)
     if tier == "thorough":
@@ -23,6 +25,26 @@ def design_space(tier, seed, tags=None, exclude=(), random_n=None):
     if exclude:
         ds = [d for d in ds if not any(t in d["tags"] for t in exclude)]
     return ds
+
+
+def declared_factors(d):
+    """user_factors plus the continuous factors the design declares (after the discrete ones of the same block)"""
+    def walk(node):
+        k = node["kind"]
+        if k in ("cross", "multi"):
+            return list(node["design"]) + list(node.get("continuous", []))
+        if k == "repeat":
+            return walk(node["block"])
+        if k == "merge":
+            out = []
+            for b in node["blocks"]:
+                out += [f for f in walk(b) if f not in out]
+            return out
+        if k == "nest":
+            out = walk(node["outer"])
+            return out + [f for f in walk(node["inner"]) if f not in out]
+        raise ValueError(k)
+    return walk(d["block"])
 
 
 def user_factors(d):
